@@ -44,7 +44,7 @@ def run(tier):
         noninterference(chk, F, ty)
         predicates(chk, F, ty)
         re_forms(chk, F, ty)
-        branch_agreement(chk, F, ty, fimps[0] if len(fimps) == 1 else None)
+        branch_agreement(chk, F, ty, fimps[0] if len(fimps) == 1 else None, samples=THOROUGH_SAMPLES if tier == "thorough" else SAMPLES)
         if GRADINGS[ty]["vec"]:
             representation_independence(chk, F, ty)
     for ty in FIELD4:
@@ -271,7 +271,12 @@ def expand_named(p):
     return p.subst(f)
 
 
-def branch_agreement(chk, F, ty, fimp):
+THOROUGH_SAMPLES = tuple(sorted(set(SAMPLES) | {s_ * v for s_ in (1, -1) for v in (
+    Fr(1, 2 ** 1074), Fr(1, 2 ** 1022), Fr(1, 2 ** 53), Fr(1, 2 ** 52), Fr(1, 2 ** 51), Fr(1, 2 ** 24), Fr(1, 2 ** 23), Fr(1, 2 ** 22),
+    Fr(1, 10 ** 5), Fr(1, 1000), Fr(1), Fr(2), Fr(5), Fr(10), Fr(50), Fr(10 ** 6))}))
+
+
+def branch_agreement(chk, F, ty, fimp, samples=SAMPLES):
     """every unary method of the generic interface, evaluated with its guards decided at sample real parts (both signs, both
     sides of every switch), returns a real part that is the SAME real expression the plain-float instance computes on its own
     path for that sample: the dual evaluation takes the float evaluation's branch"""
@@ -286,7 +291,7 @@ def branch_agreement(chk, F, ty, fimp):
         if body is None or fb is None or len(body["params"]) != 1 or name in ("re", "from_inner", "sin_cos"):
             continue
         chk.count("interface methods compared with the float instance")
-        for x in SAMPLES:
+        for x in samples:
             env = dict(CONST_ENV)
             env.update({("v", "a.re", ()): x, ("c", "EPS"): EPS_VALUE})
             key = "branch|%s|%s|x=%s" % (ty, name, x)
